@@ -191,3 +191,58 @@ def run(ctx):
             got = impl.errname(e)
         if got != 'err ValueError':
             ctx.fail('C', 'wrong qubit count %s not rejected with ValueError (%s)' % (qs, got), dict(qubits=qs))
+    # named gates after use, copied, inside circuits, compiled: still the textbook action in both directions
+    # (backward = conjugation by the inverse table, obtained from the oracle, not from the library)
+    def inv_rows(rows):
+        """oracle inverse of a small table: search the images of X_k, Z_k among all operators"""
+        nq = len(rows) // 2
+        gens = G.id_map_ops(nq)
+        out = []
+        for target in gens:
+            found = None
+            for letters in itertools.product('IXYZ', repeat=nq):
+                for ph in (0, 2):
+                    if H.map_apply(rows, (letters, ph)) == target:
+                        found = (letters, ph)
+            out.append(found)
+        return out
+    cases = [(nm, 1, TEXT[nm], (lambda q, nm=nm: getattr(CI, nm)(q[0]))) for nm in TEXT]
+    for kk in range(24):
+        try:
+            cases.append(('C(%d)' % kk, 1, impl.ops_of(CI.C(kk, 0).forward_map), (lambda q, kk=kk: CI.C(kk, q[0]))))
+        except Exception:
+            pass
+    cases.append(('CNOT(c<t)', 2, cnot_rows(0, 1), lambda q: CI.CNOT(q[0], q[1])))
+    cases.append(('CNOT(c>t)', 2, cnot_rows(1, 0), lambda q: CI.CNOT(q[1], q[0])))
+    for nm, nq, rows, mk in cases:
+        irows = inv_rows(rows)
+        for _ in range(ctx.budget(2, 12)):
+            n = rng.randrange(nq, 5)
+            qs = sorted(rng.sample(range(n), nq))
+            Ps = [G.rand_op(rng, n) for _k in range(4)]
+            wantF = [H.map_apply_masked(rows, qs, P) for P in Ps]
+            wantB = [H.map_apply_masked(irows, qs, P) for P in Ps]
+            for how in ('used-then-copied', 'circuit', 'circuit-compiled', 'Circuit-compiled', 'circuit-copy'):
+                ctx.case(('named-history', nm, how, n, tuple(qs), tuple(Ps)), True, sample=dict(op=nm, how=how, N=n, qubits=qs))
+                ctx.count('history:' + how)
+                try:
+                    g = mk(qs)
+                    if how == 'used-then-copied':
+                        g.backward(impl.plist(Ps)); g.forward(impl.plist(Ps))       # fills the lazily computed maps
+                        obj = g.copy()
+                    else:
+                        obj = (CI.Circuit(n) if how.startswith('Circuit') else CI.CliffordCircuit(n))
+                        obj.take(g)
+                        if how.endswith('compiled'):
+                            obj.compile()
+                        if how == 'circuit-copy':
+                            obj.backward(impl.plist(Ps))
+                            obj = obj.copy()
+                    gotF = impl.ops_of(obj.forward(impl.plist(Ps)))
+                    gotB = impl.ops_of(obj.backward(impl.plist(Ps)))
+                except Exception as e:
+                    ctx.fail(nm, 'implementation raised %r (%s)' % (e, how), dict(N=n, qubits=qs)); continue
+                if gotF != wantF:
+                    ctx.fail(nm, 'gate %s on qubits %s (%s): forward is not the textbook conjugation' % (nm, qs, how), dict(N=n, qubits=qs, Ps=Ps, got=gotF, want=wantF))
+                if gotB != wantB:
+                    ctx.fail(nm, 'gate %s on qubits %s (%s): backward is not the conjugation by the inverse gate' % (nm, qs, how), dict(N=n, qubits=qs, Ps=Ps, got=gotB, want=wantB))
